@@ -72,6 +72,15 @@ def run_case(R, tmp, case, meas):
     elif case["disk0"] == "Absent" and now is not None:
         fails.append("%s: dump failed at validation point %d (%s) and left a new %d-byte file behind"
                      % (case["fmt"], case["failAt"], pt, len(now)))
+    if case["failAt"] and not fails:
+        # after the refused dump the same object, now valid again, is written to the same destination
+        try:
+            obj.dump(path)
+            if open(path).read() != meas[case["fmt"]]["good"]:
+                fails.append("%s: a valid dump following the refused one (point %d) wrote something else than a first dump would" % (case["fmt"], case["failAt"]))
+        except Exception as exc:
+            fails.append("%s: a valid dump following the refused one (point %d) raised %s: %s" % (case["fmt"], case["failAt"], type(exc).__name__, exc))
+        tr = tr + [e for evs in R.TRACES.get("dump", {}).values() for e in evs if e not in tr]
     return fails, tr
 
 
